@@ -199,8 +199,9 @@ class C20(Prop):
         # input-length alignment: the same short transmission behind leading noise of every length class modulo the block sizes the programs
         # might read or process in (steps of 32 samples over 384): link report, end-of-stream flag and whole frames must not depend on it
         src = "".join(rng.choice(alph) for _ in range(rng.randrange(1, 10)))
-        base = rng.randrange(2000, 9000)
-        align = [(src, "", rng.randrange(16), j % 2, {"samples": base + 32 * j, "sigma_int16": 30, "seed": rng.randrange(10 ** 6)}, "noise", 3) for j in range(12 if quick else 48)]
+        base = rng.randrange(700, 1100)         # short enough that the receiver is ready for the link setup FRAME itself (not only the LICH)
+        cans = list(range(16)); rng.shuffle(cans)
+        align = [(src, "", cans[j % 16], j % 2, {"samples": base + 32 * j, "sigma_int16": 30, "seed": rng.randrange(10 ** 6)}, "noise", 3) for j in range(12 if quick else 48)]
         self.pipeline(ctx, mod, dem, align, "alignment")
         if not quick:
             mods, dems = self.programs(san=True)
